@@ -300,6 +300,7 @@ class Rule:
 
 
 class Interp:
+    DEAD = []      # paths that ended in a definite NULL dereference (site, rule, function)
     def __init__(self, prog, unit, model=None, rule=None, hooks=None, inline=None, no_inline=(), max_depth=12,
                  budget=400000, const_globals=None):
         self.prog = prog
@@ -669,6 +670,18 @@ class Interp:
         op = e['opcode']
         sub = e['inner'][0]
         if op == '&':
+            # offsetof idiom: &((T *)0)->member
+            ss = sub
+            while ss.get('kind') == 'ParenExpr':
+                ss = ss['inner'][0]
+            if ss.get('kind') == 'MemberExpr' and ss.get('isArrow'):
+                b = ss['inner'][0]
+                while b.get('kind') in ('ParenExpr', 'ImplicitCastExpr', 'CStyleCastExpr') and b.get('inner'):
+                    if b.get('castKind') == 'NullToPointer':
+                        return [(st, Term(('offsetof', b.get('type', {}).get('qualType', '?'), ss.get('name'))))]
+                    b = b['inner'][0]
+                if b.get('kind') == 'IntegerLiteral' and b.get('value') == '0':
+                    return [(st, Term(('offsetof', ss['inner'][0].get('type', {}).get('qualType', '?'), ss.get('name'))))]
             return [(s, self.addr_of(s, lv)) for s, lv in self.lv(sub, st)]
         if op == '*':
             if '(' in sub.get('type', {}).get('qualType', '') and sub.get('type', {}).get('qualType', '').endswith(')') \
@@ -800,7 +813,10 @@ class Interp:
             if pa and (pb or isinstance(b, Int)) or pb and isinstance(a, Int):
                 a2, b2 = nz(a), nz(b)
                 eq = vkey(a2) == vkey(b2)
-                return Int(int(eq if op == '==' else not eq))
+                # a pointer into storage named only by an opaque term may alias any other object: undecided unless identical
+                opaque = any(isinstance(x, Ref) and x.loc[0] == 'term' for x in (a2, b2))
+                if eq or not opaque or a2 is NULL or b2 is NULL:
+                    return Int(int(eq if op == '==' else not eq))
         if isinstance(a, Not) or isinstance(a, Cmp):
             # comparison of a boolean-valued expression with a constant
             if isinstance(b, Int) and op in ('==', '!='):
@@ -957,6 +973,7 @@ class Interp:
         if pv is NULL or isinstance(pv, Int):
             self.rule.on_deref(self, st, pv, node)
             st.dead = ('nullderef', node_loc(node))
+            Interp.DEAD.append((node_loc(node), type(self.rule).__name__, self.frames[-1] if self.frames else '?'))
             return (('term', ('dead', node.get('id'))), '')
         if isinstance(pv, Str):
             return (('str', pv.s, pv.off), '')
